@@ -18,7 +18,7 @@ RULE = ("per run: format (pickle/json), user-space buffer size, prior on-disk co
         "and not after the last directory operation; distinct = distinct (format, prior, op kind#occurrence, fault kind, resolution) tuples")
 TIERS = {
     "quick": {"runs": 6000, "max_wall": 240, "minimise_s": 20, "chunk": 100},
-    "thorough": {"runs": 400000, "max_wall": 3000, "minimise_s": 60, "chunk": 500},
+    "thorough": {"runs": 250000, "max_wall": 3000, "minimise_s": 60, "chunk": 500},
 }
 FAULT_KINDS = ["crash_before", "crash_after", "EIO", "ENOSPC (short write)", "EACCES", "powerloss: unsynced data kept/dropped/prefix/zerofill",
                "powerloss: journal prefix"]
